@@ -20,3 +20,33 @@ use crate::runner::Property;
 pub fn all() -> Vec<Box<dyn Property>> {
     vec![Box::new(c01::C01), Box::new(c02::C02), Box::new(c03::C03), Box::new(c04::C04), Box::new(c05::C05), Box::new(c07::C07), Box::new(c08::C08), Box::new(c09::C09), Box::new(c10::C10), Box::new(c13::C13), Box::new(c14::C14), Box::new(c15::C15), Box::new(c16::C16), Box::new(c17::C17), Box::new(c18::C18)]
 }
+
+/// Entry point of the generic fuzz target: the property is fixed by the
+/// environment variable QCHECK_FUZZ_PROP (read once), the bytes are the tape.
+pub fn fuzz_prop(id: &str, data: &[u8]) -> Option<String> {
+    use std::sync::OnceLock;
+    static PROPS: OnceLock<Vec<Box<dyn Property>>> = OnceLock::new();
+    let props = PROPS.get_or_init(all);
+    let p = props.iter().find(|p| p.id() == id)?;
+    let len = p.tape_len();
+    if len == 0 {
+        return None;
+    }
+    let mut tape: Vec<u64> = data
+        .chunks(8)
+        .map(|ch| {
+            let mut b = [0u8; 8];
+            b[..ch.len()].copy_from_slice(ch);
+            u64::from_le_bytes(b)
+        })
+        .collect();
+    tape.resize(len, 0);
+    let (case, v) = p.run_tape(&tape);
+    match v {
+        crate::runner::Verdict::Fail(m) => Some(format!(
+            "{}",
+            serde_json::json!({"property": id, "backend": crate::amt::BACKEND, "case": case, "message": m, "origin": "libFuzzer"})
+        )),
+        _ => None,
+    }
+}
